@@ -31,7 +31,6 @@ EXTENDS SchemaNames, FeatureResolve, FiniteSets, TLC
 MinOf(S) == CHOOSE x \in S : \A y \in S : x <= y
 \* 0-based index of the first element of seq equal to v, -1 if none
 FirstIdx(seq, v) == LET S == {i \in 1..Len(seq) : seq[i] = v} IN IF S = {} THEN -1 ELSE MinOf(S) - 1
-Count(seq, P(_)) == Cardinality({i \in 1..Len(seq) : P(seq[i])})
 \* TLCEval: build the sequence once instead of re-evaluating the element expression at every access
 Map(seq, Op(_)) == TLCEval([i \in 1..Len(seq) |-> Op(seq[i])])
 RECURSIVE Flatten(_)
@@ -42,8 +41,6 @@ Dec1(x) == IF x <= -MaxInt THEN -MaxInt ELSE x - 1
 Inc1(x) == IF x >= MaxInt THEN MaxInt ELSE x + 1
 Clamp(x) == IF x > MaxInt THEN MaxInt ELSE IF x < -MaxInt THEN -MaxInt ELSE x
 ProbePoints(lo, hi) == <<Dec1(lo), Clamp(lo), Inc1(lo), Dec1(hi), Clamp(hi), Inc1(hi)>>
-
-SyntaxName(f) == f.syntax
 
 KMessage == 11
 KGroup == 10
@@ -199,7 +196,6 @@ ExplicitDefault(f, c, x) ==
   IF c.kind = KEnum THEN [valid |-> TRUE, s |-> ToString(EnumDefault(f, c, x.def).num)]
   ELSE [valid |-> TRUE, s |-> x.def]
 
-EFView(ef) == ef
 OptView(x, kind) ==
   [packed |-> IF kind = "field" THEN x.packed ELSE "", lazy |-> IF kind = "field" THEN x.lazy ELSE FALSE, dep |-> x.dep,
    mapentry |-> IF kind = "msg" THEN x.mapentry ELSE FALSE, mset |-> IF kind = "msg" THEN x.mset ELSE FALSE,
